@@ -21,6 +21,9 @@ pub fn run(ctx: &mut Ctx, prop: &str) {
     if prop == "C14" || prop == "C17" {
         stream_surplus_points(ctx, prop);
     }
+    if prop == "C14" || prop == "C03" || prop == "C02" {
+        stream_repeated_point(ctx, prop);
+    }
 }
 
 /// the scheme's random oracle (hash-and-retry into the scalar field)
@@ -235,5 +238,52 @@ fn stream_surplus_points(ctx: &mut Ctx, prop: &str) {
                 ctx.rep.case("attack stream surplus points: verifier aborted (refusal)", Some("attack-stream-surplus/abort".into()));
             }
         }
+    }
+}
+
+/// Streaming KZG, an evaluation point listed TWICE, for a polynomial with a double root there: the honest
+/// multi-point proof exists (the quotient by the vanishing polynomial is exact), the Lagrange denominators of the
+/// repeated point are zero. Whatever is claimed at the repeated point must not be accepted (a refusal — the
+/// unchanged verifier aborts on the zero inverse — is fine).
+fn stream_repeated_point(ctx: &mut Ctx, prop: &str) {
+    use ark_bls12_381::Bls12_381;
+    use ark_poly_commit::streaming_kzg::{CommitterKey, VerifierKey};
+    type E = Bls12_381;
+    for i in 0..ctx.n(4, 20) {
+        let id = format!("{}/attack-stream-repeated-point/{}", prop, i);
+        if !ctx.selected(&id) {
+            continue;
+        }
+        let mut rng = rng_for(ctx.seed, "attack-stream-repeated-point", i as u64);
+        let a = if i % 3 == 0 { Fr::zero() } else { Fr::rand(&mut rng) };
+        let b = Fr::rand(&mut rng);
+        // f = (X - a)^2 · g(X)
+        let gdeg = 1 + i % 4;
+        let g: Vec<Fr> = (0..=gdeg).map(|_| Fr::rand(&mut rng)).collect();
+        let sq = [a * a, -(a + a), Fr::one()];
+        let mut f = vec![Fr::zero(); g.len() + 2];
+        for (k, gk) in g.iter().enumerate() {
+            for (j, sj) in sq.iter().enumerate() {
+                f[k + j] += *gk * sj;
+            }
+        }
+        let horner = |p: &[Fr], x: Fr| p.iter().rev().fold(Fr::zero(), |acc, c| acc * x + c);
+        let pts = vec![a, a, b];
+        let r = guarded(|| {
+            let ck = CommitterKey::<E>::new(f.len() + 1, 3, &mut rng);
+            let vk = VerifierKey::from(&ck);
+            let c = ck.commit(&f);
+            let eta = Fr::rand(&mut rng);
+            let pi = ck.batch_open_multi_points(&[&f], &pts, &eta);
+            let claimed = vec![Fr::from(5u64), Fr::from(7u64), horner(&f, b)];
+            vk.verify_multi_points(&[c], &pts, &[claimed], &pi, &eta).is_ok()
+        });
+        let accepted = matches!(r, Ok(true));
+        if accepted {
+            ctx.rep.expect_fail(&id, "streaming_kzg/false-evaluations-accepted/repeated-point",
+                "verify_multi_points accepted false values at a point listed twice (polynomial with a double root there)",
+                format!("# scheme: streaming_kzg\n# case: {}\n# seed: {}\n# points [a, a, b], f = (X-a)^2·g, claimed f(a) = 5 and 7 (true value 0)\n# rerun: .build/cargo/debug/pcv-harness {} --seed {} --only {}\n", id, ctx.seed, prop, ctx.seed, id));
+        }
+        ctx.rep.case(&format!("attack stream repeated point accepted={} (verifier outcome {:?})", accepted, r.as_ref().map(|b| *b).map_err(|e| e.chars().take(40).collect::<String>())), Some(format!("attack-stream-repeated/{}", i % 4)));
     }
 }
